@@ -22,6 +22,14 @@ CHECKS = {
              "edge sequences of the catalogue (non-uniform, repeated edges, inner-edge and n_bins constructors), all small multisets of entries (on, between, outside edges), "
              "all batchings and read/rebin interleavings in the bound; each history is executed on the real container and every read compared with the declarative half-open count.",
         note="Trusted: TLC, harness/adapters/histfill.py. Entries/edges are small integers; bounds: <= 4-5 entries, <= 4 edges, depth 5-6 in TLC, 2-4 steps exhaustively replayed, 12 by simulation."),
+    "C13": dict(
+        category="model_checking", design_ref="DESIGN.md 4.6, 5/C13",
+        technique="TLA+ spec HistModel.tla (quadrature rules as exact integer arithmetic x 960 on polynomial densities, lazy stale flag, new model on new data, rebin) model-checked with TLC; every bounded history replayed on real HistFit / HistParametricModel objects for all 7 bin_evaluation modes and both density flags",
+        text="TLC checks ModelFollowsParams, DensityScaling, the exactness classes (Simpson exact to degree 3 and not 4; trapezoid/midpoint exact to degree 1 and not 2) and the convergence orders "
+             "(halving a bin divides the error of the first non-integrated monomial by exactly 16 / 4 / 4) over all polynomials, edge sequences and methods of the catalogue and all histories of "
+             "parameter changes / data replacement / rebinning / reads in the bound; each history is executed on a real HistFit, a free-standing HistParametricModel and a smooth companion "
+             "(normal + exponential mixture): bin contents, fit.model, eval_model_function_density compared with the spec's exact numbers, the smooth companion with its antiderivative within the textbook error bound of each rule.",
+        note="Trusted: TLC, harness/adapters/histmodel.py. Polynomials degree <= 4 with integer coefficients, integer edges (3 edge sequences); tolerance 1e-12 relative (1e-9 for scipy quad)."),
     "C02": dict(
         category="model_checking", design_ref="DESIGN.md 4.2, 5/C02",
         technique="TLA+ spec ErrorModel.tla (sources, reference modes, per-source and total caches, model stale flag, pending histogram entries) model-checked with TLC for 6 container kinds; every bounded history replayed on the real containers / parametric models against the spec's exact integer covariance",
